@@ -202,6 +202,27 @@ def coqchk(pid, timeout=1500, more_props=()):
             "coqchk_problems": probs}
 
 
+def kernel_examples(ctx, preamble, examples, name="kernel_crosscheck", timeout=600):
+    """Second evaluation route for a model (DESIGN.md 2.3, step 4): every (lhs, rhs) pair becomes
+    `Example k : lhs = rhs. Proof. vm_compute. reflexivity. Qed.` in a scratch file compiled by coqc against the
+    development; rhs is what the EXTRACTED runner printed, rendered as a Coq term, so a successful compilation means
+    the kernel's own evaluator agrees with extraction + OCaml driver on these cases.  -> (info dict, problems list)"""
+    lines = list(preamble)
+    for k, (lhs, rhs) in enumerate(examples):
+        lines.append("Example k%d : %s = %s." % (k, lhs, rhs))
+        lines.append("Proof. vm_compute. reflexivity. Qed.")
+    vf = os.path.join(ctx.work, name + ".v")
+    open(vf, "w").write("\n".join(lines) + "\n")
+    try:
+        p = subprocess.run(["coqc", "-q", "-Q", COQ, "Yui", vf], cwd=ctx.work, capture_output=True, text=True, timeout=timeout)
+        ok, msg = p.returncode == 0, (p.stdout + p.stderr)[-800:]
+    except subprocess.TimeoutExpired:
+        ok, msg = False, "coqc timed out"
+    info = {name: {"cases_evaluated_by_vm_compute": len(examples), "agree_with_extracted_runner": ok}}
+    probs = [] if ok else ["kernel cross-check: vm_compute and the extracted runner disagree (or coqc failed): " + msg]
+    return info, probs
+
+
 # ------------------------------------------------------------------------------------------------
 # OCaml runner
 # ------------------------------------------------------------------------------------------------
